@@ -43,7 +43,21 @@ ASSUMPTIONS = [
     "SINGLE_WRITER / SINGLE_READER flags are honoured by the user (one writer / one reader thread)",
     "read-once readers all use read-once mode",
 ]
-EVIDENCE_NOTES = []
+EVIDENCE_NOTES = [
+    "rb_payload_visible is proved only in part (rb_payload_visible_partial): reader modes wait / single-wait / "
+    "busy-loop with locked or single writers; the read-once mode's visibility (read_cursor under read_mutex, slot "
+    "and payload reads of muggle_ring_buffer_read_once) is NOT proved - there the model's uncovered-read monitor is "
+    "evaluated on every accepted trace (model prints an F MODEL line, i.e. a divergence, if it fires) and explored "
+    "by model_search when the memory-order obligation breaks",
+    "the theorems carry the documented no-lapping precondition as the ghost monitor s_lapped = false (checked at "
+    "every slot store against every reader's next index); that the HARNESS throttle (tickets) implies it is not "
+    "proved: it is checked on every throttled trace by the model (F MODEL line if violated) and independently by "
+    "the Python monitor (harness fault)",
+    "rb_once_exactly_once: proved = takes in read-mutex order are a prefix of written and every returned result is "
+    "the take recorded for that reader at one position; not stated as a theorem: that a reader's positions are "
+    "strictly increasing and that every taken position is eventually returned (checked by the monitor: per-reader "
+    "unlock order vs results, total count)",
+]
 
 SITES = [  # (params field, discovery scenario, op, cell)
     ("mo_tas", "lockwait", "tas", "wlock"), ("mo_clear", "lockwait", "clear", "wlock"),
@@ -462,9 +476,10 @@ MANIFEST = {
                    "mutex; wait / single-wait / busy-loop / read-once readers) with an arbitrary number of writers and "
                    "readers, any power-of-two capacity and every schedule: under the documented no-lapping precondition "
                    "read(i) returns the i-th published message and only after it exists, all readers agree, the 32-bit "
-                   "index wrap is harmless, read-once delivers a duplicate-free prefix in read-mutex order, and every "
-                   "slot / payload read is covered by the reader's view (memory orders re-extracted from the code each "
-                   "run).  Tie: the real code runs under a deterministic scheduler (hooked atomics, emulated "
+                   "index wrap is harmless, read-once takes in read-mutex order are a prefix of the publication order, and "
+                   "(proved for the wait / single-wait / busy-loop modes; read-once mode only monitored in the model) "
+                   "every slot / payload read is covered by the reader's view (memory orders re-extracted from the code "
+                   "each run).  Tie: the real code runs under a deterministic scheduler (hooked atomics, emulated "
                    "futex/mutex) and every trace is replayed on the extracted model; an independent monitor checks "
                    "publication order, per-reader sequences, read-once prefix and payloads on the traces."),
     "design_ref": "DESIGN.md sections 4.2, 4.3, 6/C02, Appendix A.6, B",
